@@ -2,6 +2,7 @@ import AnySyncModel.Tree.Loader
 import AnySyncModel.Tree.LoaderLemmas
 import AnySyncModel.Tree.ApplyLemmas
 import AnySyncModel.Tree.ObjectTreeLemmas
+import AnySyncModel.Tree.RecvLemmas
 /-!
 C09 - full-sync responses are complete, causally ordered and size-bounded.
 
@@ -264,6 +265,66 @@ theorem apply_real_path_partial (stored : List Change) (ourPath theirPath : List
   ⟨fun hun hroot hcaus hres => addRaw_plain stored ourPath theirPath t batch t' added hun hroot hcaus hres,
    fun cs csC rest A hcs hload hst hres =>
      addRaw_rebuilt stored ourPath theirPath t batch cs csC rest A t' added hcs hload hst hres⟩
+
+/-! #### towards the full run (round 5)
+
+`SInv stored`: unique ids, every stored change other than the first (the tree root) stored after all its previous ids
+and its snapshot base (ancestor-closed storage, stored order a linear extension incl. the snapshot edge).
+`StepHyp q theirPath b`: what one step needs - memory ⊆ storage; in-memory branch: the new changes are causal for the
+tree; rebuild branch: a causal enumeration from the common snapshot containing the new changes + `SnapOK` + unique ids.
+-/
+
+/-- the storage invariant survives every admissible storage update (`updateHeads` + `AddAll`, cf. C06 `storage_order`) -/
+theorem storage_update_keeps_sinv (old new added : List Change) (hu : StorageUpdate old new added) (hs : SInv old) :
+    SInv new :=
+  storageUpdate_sinv hu hs
+
+/-- the rebuild branch for an honest DAG: if the storage followed by the not yet stored changes of the batch is a linear
+extension, and below the common snapshot `cs` the DAG is entered only through `cs` (`D` marks what is strictly below;
+C06 `honest_entry` derives this from `Honest`), then the rebuilt tree is rooted at `cs`, holds every new change and
+reports each of them as added. -/
+theorem rebuild_branch_from_entry (pre rest : List Change) (ourPath theirPath : List Nat) (t : T) (batch : List Change)
+    (cs : Nat) (csC : Change) (t' : T) (added : List Nat) (D : Nat → Bool)
+    (hcs : commonSnapshot ourPath theirPath = some cs)
+    (hload : (pre ++ csC :: rest).dropWhile (·.id != cs) = csC :: rest)
+    (hid : csC.id = cs) (hself : cs ∉ csC.prevs)
+    (hF : SInv ((pre ++ csC :: rest) ++ extraOf (pre ++ csC :: rest) t batch))
+    (hrootprev : ∀ p ∈ csC.prevs, ∀ c ∈ rest ++ extraOf (pre ++ csC :: rest) t batch, c.id ≠ p)
+    (hs : SnapOK (rest ++ extraOf (pre ++ csC :: rest) t batch) (baseTree cs csC))
+    (D0 : D cs = false) (Dpre : ∀ c ∈ pre, D c.id = false)
+    (D1 : ∀ c ∈ rest ++ extraOf (pre ++ csC :: rest) t batch, D c.id = true →
+      c.prevs ≠ [] ∧ (∀ p ∈ c.prevs, p = cs ∨ D p = true) ∧ (c.snap = cs ∨ D c.snap = true))
+    (D2 : ∀ c ∈ extraOf (pre ++ csC :: rest) t batch, D c.id = true)
+    (hres : addRaw (pre ++ csC :: rest) ourPath theirPath t batch = .rebuilt t' added) :
+    t'.root = some cs ∧ t'.unatt = [] ∧
+    ∀ c ∈ extraOf (pre ++ csC :: rest) t batch, t'.has c.id = true ∧ c.id ∈ added :=
+  addRaw_rebuilt_entry pre rest ourPath theirPath t batch cs csC t' added D hcs hload hid hself hF hrootprev hs
+    D0 Dpre D1 D2 hres
+
+/-- **one step stores the batch**: under `StepHyp`, after `RecvStep` the receiver stores everything it stored before
+and every change of the batch (whichever branch `addRaw` takes). -/
+theorem apply_real_step_stores (q q' : Recv) (theirPath : List Nat) (b : List Change)
+    (hh : StepHyp q theirPath b) (hstep : RecvStep q theirPath b q') :
+    (∀ x, q.holds x = true → q'.holds x = true) ∧ ∀ c ∈ b, q'.holds c.id = true :=
+  recvStep_holds q q' theirPath b hh hstep
+
+/-- **the run stores every sent change, by the invariant rule**: for ANY invariant `I` of the receiver (and the batches
+still to come) that is preserved by `RecvStep` and implies `StepHyp`, a `RecvRun` from an `I`-state ends storing every
+change of every batch.  The exact remaining obligation for `C09_apply_real_path_full` is therefore
+`∃ I` with `I q0 batches` for a consistent receiver and the batches of `respond` of an honest responder: i.e. that
+`StepHyp` is re-established after every storage update and root move.  `SInv` is re-established
+(`storage_update_keeps_sinv`); what is not derived for the concrete machine is (a) the entry property below the common
+snapshot of every later step (C06 `honest_entry` gives it from `Honest` of the global DAG; `Honest` itself is the sync
+area's Inv-S, proved there for the abstract protocol), (b) `SnapOK` at the common snapshot (the snapshot base of a change
+is attached whenever its previous ids are: it is an ancestor of one of them *below the common snapshot* - needs that no
+sent change cites a snapshot older than the common snapshot), (c) that the in-memory tree holds every stored change
+descending from its root after a root move (closure under attachability). -/
+theorem apply_real_path_of_invariant (theirPath : List Nat) (I : Recv → List (List Change) → Prop)
+    (hpres : ∀ q b bs q', I q (b :: bs) → RecvStep q theirPath b q' → I q' bs)
+    (hok : ∀ q b bs, I q (b :: bs) → StepHyp q theirPath b)
+    (q0 q : Recv) (batches : List (List Change)) (hI : I q0 batches) (hrun : RecvRun theirPath q0 batches q) :
+    ∀ c ∈ batches.flatten, q.holds c.id = true :=
+  (recvRun_holds theirPath I hpres hok q0 q batches hI hrun).2
 
 /-- an instance of the rebuild branch: the receiver is reduced to snapshot `2` (path `2,1`) and stores `1,2,3`; a
 sender still rooted at `1` (path `1`) delivers `5` (child of `1`, snapshot base `1`): the tree is rebuilt at `1` and
